@@ -347,7 +347,11 @@ pub fn ifworld(prog: &[Item], defines: &[(String, RVal)]) -> Outcome {
     }
     for (i, it) in world.iter().enumerate() {
         if let Item::Sub(p, _, _) = it {
-            let ok = i > 0 && matches!(&world[i - 1], Item::Label(q) | Item::Const(q, _) if q == p);
+            // lexical scoping: the parent is the last level-0 symbol before it in the selected world
+            let ok = world[..i].iter().rev().find_map(|w| match w {
+                Item::Label(q) | Item::Const(q, _) => Some(q == p),
+                _ => None,
+            }) == Some(true);
             if !ok {
                 done!(Verdict::Unspec("local constant not directly under its parent"));
             }
